@@ -82,7 +82,12 @@ def refine_real(method, measure, subpix, D, k, frac=0, cap=60, block=(), premask
             moved = z3.And(valid, z3.Not(stop))
             diff = new.val - old
             props.append(("shift-at-most-half-a-sample", z3.Implies(valid, z3.And(new.tag == 0, diff <= z3.RealVal(1) / (2 * subpix), diff >= -z3.RealVal(1) / (2 * subpix)))))
-            props.append(("refined-equals-fitted-optimum", z3.Implies(z3.And(moved, z3.Not(degenerate)), z3.And(new.val == old + dx / subpix, coef.tag == 0, coef.val == y))))
+            # the fitted optimum, kept inside the interval (only a disparity that a previous filter moved off the sampling grid can be
+            # closer than half a sample to an end without sitting on the end sample)
+            tgt = old + dx / subpix
+            hi_ = z3.RealVal(str(Fraction(dmax)))
+            tgt = z3.If(tgt < dmin, z3.RealVal(dmin), z3.If(tgt > hi_, hi_, tgt))
+            props.append(("refined-equals-fitted-optimum", z3.Implies(z3.And(moved, z3.Not(degenerate)), z3.And(new.val == tgt, coef.tag == 0, coef.val == y))))
             props.append(("coefficient-never-worse-than-sample", z3.Implies(moved, z3.And(coef.tag == 0, inv * coef.val <= inv * c1.val))))
             props.append(("stays-inside-interval", z3.Implies(valid, z3.And(new.val >= dmin, new.val <= z3.RealVal(str(Fraction(dmax)))))))
             props.append(("left-in-place-with-bit3-iff-cause", z3.Implies(valid, z3.And(
@@ -134,7 +139,9 @@ def replay(cex):
         if new != old or mn != mo:
             bad.append('invalid pixel modified')
     else:
-        if abs(new - old) > 0.5 / subpix:
+        # the stored value is a float32: the exact sum old + shift (|shift| <= half a sample) is rounded once, so the stored shift may
+        # exceed half a sample by at most half an ulp of the result
+        if abs(new - old) > 0.5 / subpix + float(np.spacing(np.float32(abs(new)))) / 2:
             bad.append('moved by %r > half a sample' % (new - old))
         if not (dmin <= new <= dmax):
             bad.append('left the interval: %r' % new)
@@ -160,8 +167,10 @@ def replay(cex):
             else:
                 alpha = (c0 - 2 * c1 + c2) / 2; beta = (c2 - c0) / 2
                 dx = None if alpha == 0 else min(1.0, max(-1.0, -beta / (2 * alpha)))
-            if dx is not None and abs((new - old) - dx / subpix) > 1e-5:
-                bad.append('refined shift %r differs from the fitted optimum %r' % (new - old, dx / subpix))
+            if dx is not None:
+                tgt = min(max(old + dx / subpix, dmin), dmax)       # fitted optimum, kept inside the interval
+                if abs(new - tgt) > 1e-5:
+                    bad.append('refined disparity %r differs from the fitted optimum %r' % (new, tgt))
     return {'violates': bool(bad), 'detail': '; '.join(bad[:3]) + ' [costs=%s disp=%s mask=%d %s %s subpix=%d]' % (cv.ravel().tolist(), old, mo, x['method'], x['measure'], subpix)}
 
 
@@ -211,7 +220,9 @@ def refine_fp(method, measure, subpix, D, k, cap=120, block=(), float_disp=False
             return
         new = S.lift(d1._a[0, 0], 'f4'); mnew = S.lift(m1._a[0, 0], 'u2')
         valid = (m0 & INVALID) == 0
-        half = z3.FPVal(0.5 / subpix, F64)
+        # the stored float32 is the exact sum old + shift rounded once: half a sample plus half an ulp of the result (results lie in
+        # [-1, 4): half an ulp is at most 2^-23)
+        half = z3.FPVal(0.5 / subpix + 2.0 ** -23, F64)
         diff = z3.fpAbs(z3.fpSub(RNE, z3.fpToFP(RNE, new, F64), z3.fpToFP(RNE, old, F64)))
         props = [("stored-shift-at-most-half-a-sample", z3.fpLEQ(diff, half)),
                  ("no-other-bit-changes", (mnew & ~z3.BitVecVal(8, 16)) == (m0 & ~z3.BitVecVal(8, 16))),
